@@ -9,7 +9,7 @@ same pass (markers are allocated while printing, nothing is parsed back), folds 
             | ('list', kind, ((term|None, segments), ...))
             | ('table', ncols_declared, rows, H, V, problems)
             | ('env', name, segments)
-  rows      = ((span, segments), ...) per row
+  rows      = ((span, text-align, segments), ...) per row   (alignment of the column type / of the \\multicolumn spec)
   H         = sorted tuple of (row boundary b, column j): a horizontal rule lies on boundary b (0 = above the first row)
               over column j     -- independent of whether it is stored as bottom of row b-1 or top of row b
   V         = sorted tuple of (column gap g, row i): a vertical rule lies in gap g (0 = left edge) beside row i
@@ -134,6 +134,14 @@ def print_spec(cols, bars, spell):
     raise ValueError(spell)
 
 
+ALIGN = {'l': 'left', 'c': 'center', 'r': 'right', 'p': 'left'}
+
+
+def mc_align(mcspec):
+    """alignment named by the column letter of a \\multicolumn spec"""
+    return ALIGN[mcspec.strip('|')[0]]
+
+
 def mc_bars(mcspec):
     """(left bar, right bar) written in a \\multicolumn spec"""
     return mcspec.startswith('|'), mcspec.endswith('|')
@@ -234,10 +242,10 @@ def build_table(ast, m, outer, dev=()):
     lead_at = LEADING_AT in dev and spell[0] == 'at' and spell[1] == 0
     if lead_at:
         # `@{}|l..` : the bar lands on the right of the second bogus column;  `|@{}l..` : on the left of the first
-        colspecs = [[bool(bars[0]) and not spell[2], False], [False, bool(bars[0]) and bool(spell[2])]]
-        colspecs += [[False, bool(bars[c + 1])] for c in range(n)]
+        colspecs = [[bool(bars[0]) and not spell[2], False, None], [False, bool(bars[0]) and bool(spell[2]), None]]
+        colspecs += [[False, bool(bars[c + 1]), ALIGN[cols[c]]] for c in range(n)]
     else:
-        colspecs = [[c == 0 and bool(bars[0]), bool(bars[c + 1])] for c in range(n)]
+        colspecs = [[c == 0 and bool(bars[0]), bool(bars[c + 1]), ALIGN[cols[c]]] for c in range(n)]
     for i, row in enumerate(rows):
         s = rule_src(i)
         if s:
@@ -250,14 +258,15 @@ def build_table(ast, m, outer, dev=()):
             if mcspec is not None:
                 body = '\\multicolumn{%d}{%s}{%s}' % (span, mcspec, body)
                 left, right = mc_bars(mcspec)
+                align = mc_align(mcspec)
             else:
-                left, right = colspecs[col] if col < len(colspecs) else (False, False)
+                left, right, align = colspecs[col] if col < len(colspecs) else (False, False, None)
             if left:
                 V.add((col, i))
             if right:
                 V.add((col + span, i))
             cells_src.append(body)
-            cells_exp.append((span, segs))
+            cells_exp.append((span, align, segs))
             col += span
         out.append(amp.join(cells_src))
         exp_rows.append(tuple(cells_exp))
